@@ -67,7 +67,7 @@ impl<T: RealNumber> DenseMatrix<T> {
 //@enter
         proof { lemma_idx(row as int, col as int, self.nrows as int, self.ncols as int); }
         let ghost pre = *self;
-//@after self.values[col * self.nrows + row] = x;
+//@exit
         proof {
             assert forall|r: int, c: int| 0 <= r < pre.nrows && 0 <= c < pre.ncols && !(r == row && c == col)
                 implies #[trigger] self.at(r, c) == pre.at(r, c) by {
